@@ -62,8 +62,12 @@ def _term(draw, a, xr):
     return ["bin", "*", _cnum(draw, a), xr]
 
 
-def render_affine(draw, coefs, const, env, allow_vector_forms=True):
+def render_affine(draw, coefs, const, env, allow_vector_forms=True, _inner=False):
     """recipe S with exact meaning sum coefs[name]*name + const.  Returns (recipe, used_forms)."""
+    if not _inner and any(coefs.values()) and draw(st.integers(0, 5)) == 0:
+        # constant on the LEFT of a subtraction:  k - (expression with negated coefficients)
+        inner, f = render_affine(draw, {n: -a for n, a in coefs.items()}, 0, env, allow_vector_forms, _inner=True)
+        return ["bin", "-", _cnum(draw, const), inner], f + ["k - expr"]
     forms = []
     pieces = []  # (recipe, sign)
     const = float(const)
@@ -138,7 +142,7 @@ def render_affine(draw, coefs, const, env, allow_vector_forms=True):
         expr = p if expr is None else ["bin", "+", expr, p]
     if expr is None:
         expr = ["bin", "*", ["const", "pyfloat", 0.0], _var_recipe(sorted(coefs, key=natural_key)[0], env)]
-    if const != 0 or draw(st.integers(0, 4)) == 0:
+    if const != 0 or (not _inner and draw(st.integers(0, 4)) == 0):
         style = draw(st.integers(0, 3))
         if style == 0 and const != 0:
             expr = ["bin", "+", _cnum(draw, const), expr]
@@ -285,8 +289,28 @@ def lp_models(draw, want=None):
         cons.append({"kind": "scalar", "lhs": L, "sense": sns, "rhs": R, "written": "direct",
                      "rows": [[[float(full.get(nm, 0.0)) for nm in names], sns, float(b)]]})
 
+    def add_zero_row():
+        """a row whose coefficients are all zero or cancel: `zeros @ x >= b`, `x0 - x0 <= b` (true or false by b alone)"""
+        sns = draw(st.sampled_from(["<=", ">=", "=="]))
+        holds = draw(st.booleans())
+        b = 0.0 if (sns == "==" and holds) else (1.0 if (sns == "<=") == holds else -2.0)
+        if sns == "==" and not holds:
+            b = 3.0
+        if env["vectors"] and draw(st.booleans()):
+            v = draw(st.sampled_from(env["vectors"]))
+            L = ["lincomb", [0.0] * v["n"], ["vvar", v["name"]], draw(st.sampled_from(["c@x", "x@c"]))]
+        else:
+            xr = _var_recipe(draw(st.sampled_from(names)), env)
+            L = ["bin", "-", xr, xr] if draw(st.booleans()) else ["bin", "*", _cnum(draw, 0), xr]
+        forms.append("zero-row:" + ("holds" if holds else "violated"))
+        cons.append({"kind": "scalar", "lhs": L, "sense": sns, "rhs": b, "written": "direct",
+                     "rows": [[[0.0 for _ in names], sns, float(b)]]})
+
     for _ in range(m):
-        kind = draw(st.sampled_from(["scalar", "scalar", "scalar", "matvec", "vecbound", "bare"]))
+        kind = draw(st.sampled_from(["scalar", "scalar", "scalar", "scalar", "matvec", "vecbound", "bare", "zero"]))
+        if kind == "zero":
+            add_zero_row()
+            continue
         if kind == "bare":
             if env["vectors"]:
                 add_bare_row()
